@@ -2603,3 +2603,18 @@ def lib_empty_sequence_if_attr_false(interp, st, args, kwargs, node):
 
 
 LIBFUNCS.update({"muutils.misc.empty_sequence_if_attr_false": lib_empty_sequence_if_attr_false})
+
+
+def lib_list_join(interp, st, args, kwargs, node):
+    """muutils.misc.list_join(lst, factory): the elements of lst with factory() between consecutive ones (trusted library contract; constant-length lists)"""
+    if kwargs or len(args) != 2 or not isinstance(args[0], (list, tuple)):
+        raise Outside("list_join other than (constant-length list, factory)", node)
+    out = []
+    for k_, e in enumerate(args[0]):
+        if k_:
+            out.append(interp.call_value(args[1], [], {}, st, node) if hasattr(interp, "call_value") else _M().call_value(interp, st, args[1], [], {}, node))
+        out.append(e)
+    return out
+
+
+LIBFUNCS.update({"muutils.misc.list_join": lib_list_join})
